@@ -1,6 +1,7 @@
 import Alpen.Generated
 import Alpen.Model.WorldOps
 import Alpen.Lemmas.World
+import Alpen.Lemmas.Seen
 /-!
 # C01 — deletion safety
 
@@ -196,6 +197,23 @@ theorem C01_history_safe (w0 : World) (hu : w0.UniqueCopies) (hid : ∀ c ∈ w0
 /-- delete with the count read in one step and the unlink in a later one -/
 def deleteSplitRead (w : World) (c : WCopy) : Bool :=
   decide (World.copiesRequired (w.isArchive c.node) ≤ w.archiveCount c.file)
+
+/-- **C01.6 (no overlapping pulls)** "no other daemon action overwrites a healthy copy": the pulls one pass dispatches
+    into a group are for pairwise different files (`seen_files`), so two transfer tasks of one pass never write — or,
+    failing, clean up — the same destination path while the other has just registered it healthy -/
+theorem C01_no_overlapping_dispatch (w : World) (hv : HostView) :
+    (firstPerFile [] (w.pendingInto hv)).Pairwise (fun a b => (a.file, a.groupTo) ≠ (b.file, b.groupTo)) ∧
+    (∀ r ∈ firstPerFile [] (w.pendingInto hv), r ∈ w.reqs ∧ r.completed = false ∧ r.cancelled = false) := by
+  refine ⟨firstPerFile_pairwise _ _, ?_⟩
+  intro r hr
+  have hm := (firstPerFile_mem _ _ r hr).1
+  unfold World.pendingInto at hm
+  obtain ⟨h1, h2⟩ := List.mem_filter.mp hm
+  simp only [Bool.and_eq_true, Bool.not_eq_true'] at h2
+  exact ⟨h1, h2.1.1, h2.1.2⟩
+
+example : firstPerFile [] [⟨1, 7, 1, 2, false, false⟩, ⟨2, 7, 3, 2, false, false⟩, ⟨3, 8, 1, 2, false, false⟩] =
+    [⟨1, 7, 1, 2, false, false⟩, ⟨3, 8, 1, 2, false, false⟩] := by decide
 
 /-- **C01.5 (F-TOCTOU)** if the count is read first and acted upon later, two daemons deleting
     two of three archive copies can both pass the test: after both unlinks only one healthy
